@@ -1022,6 +1022,32 @@ def r08_8(ctx):
     ctx.need(n >= 4, f"transport representations handed to sockets (found {n})")
 
 
+@rule('R08.7b', ['C08', 'C20', 'C09'], floor=1, clause='the 6LoWPAN UDP verifier compares the received checksum with the value the emitter would have sent: a sum that computes to zero is expected as 0xffff')
+def r08_7b(ctx):
+    F = ctx.F
+    b = ctx.method('wire::sixlowpan::nhc::UdpNhcRepr', 'parse')
+    found = []
+    for bi, bl in enumerate(b.blocks):
+        if bl['cl'] or bl['t'][0] != 'switch':
+            continue
+        for tb, lab, f in cond_facts(F, b, bi):
+            if f[0] != 'rel' or f[1] not in ('Eq', 'Ne'):
+                continue
+            for x, y in ((f[2], f[3]), (f[3], f[2])):
+                if any(l.startswith('C:') and l.endswith('::checksum') and 'UdpNhcPacket' in l for l in leafs(y)) and \
+                        any(l.startswith('C:') and l.endswith('checksum::combine') for l in leafs(x)):
+                    found.append((bi, x))
+    ctx.need(found, "comparison of the computed with the received checksum in UdpNhcRepr::parse")
+    bi, x = found[0]
+    xs = strip(simplify(x))
+    alts_ = list(xs[1]) if xs[0] == 'phi' else [xs]
+    if any(const_of(a) == 0xffff for a in alts_) and any(strip(a)[0] == 'un' for a in alts_):
+        ctx.ok(('UdpNhcRepr::parse', 'zero->0xffff'), sample=dict(fn='UdpNhcRepr::parse', expects='if sum == 0 { 0xffff } else { sum }'))
+    else:
+        ctx.bad("sixlowpan::nhc::UdpNhcRepr::parse|zero-checksum-expected", "UdpNhcRepr::parse compares the received checksum with the plain complemented sum: a datagram whose "
+                "checksum computes to 0 arrives carrying 0xffff (as the emitter sends it) and is rejected as corrupt", body=b, bb=bi)
+
+
 @rule('R08.9', ['C08', 'C10'], floor=8, clause='the per-protocol checksum setting means what it says: rx() is true exactly for Both and Rx, tx() exactly for Both and Tx')
 def r08_9(ctx):
     from .c07 import const_returns_under_variant
